@@ -48,7 +48,7 @@ func c16Render(c c16Case, variant int, rnd *rand.Rand) string {
 	for _, ch := range []byte(c.key()) {
 		kh = (kh*31 + int(ch)) & 0xffff
 	}
-	deco := ((variant >> 2) + kh) % 8
+	deco := ((variant >> 2) + kh) % 9
 	party := func(p c16Party, other bool) string {
 		isSIP := strings.HasPrefix(p.uri, "sip:") || strings.HasPrefix(p.uri, "sips:")
 		uri := p.uri
@@ -71,6 +71,9 @@ func c16Render(c c16Case, variant int, rnd *rand.Rand) string {
 				uri += ";x=1?Subject=hi"
 			}
 			return "Bob <" + uri + ">;extra=1" + tagp + ";other"
+		case 8:
+			// many header parameters, the tag not among the first ones
+			return "<" + uri + ">;a=1;b=2;c;d=4" + tagp + ";e=5;f"
 		case 6:
 			// URI headers only, their value containing a further '?'
 			if isSIP {
@@ -147,7 +150,7 @@ type c16Monitor struct {
 
 func TestVerifC16(t *testing.T) {
 	run := ev.New("C16", "exploration",
-		"all assignments of (Call-ID, two tags, two URIs) over small alphabets (equal URIs, equal tags, '-' values included) x orientation x request (10 methods) / response (11 status codes incl. 100 and 1xx) x 8 decorations (display names, URI parameters, URI headers - also with a further '?' in their value -, header parameters, bare addr-spec) x 4 header-name spellings, users that differ only inside a %HH escape, a host written with capitals, plus random long identifiers; "+
+		"all assignments of (Call-ID, two tags, two URIs) over small alphabets (equal URIs, equal tags, '-' values included) x orientation x request (10 methods) / response (11 status codes incl. 100 and 1xx) x 9 decorations (display names, URI parameters, URI headers - also with a further '?' in their value -, header parameters, bare addr-spec) x 4 header-name spellings, users that differ only inside a %HH escape, a host written with capitals, plus random long identifiers; "+
 			"monitor: identifier <-> canonical key must be a bijection and tag-less messages must yield no identifier; distinct = distinct canonical keys")
 	// (values whose concatenations coincide - "a"+"11" / "a1"+"1", "sip:h"+"21" / "sip:h2"+"1" -
 	// are there for identifiers that lose a boundary between their parts)
@@ -277,6 +280,41 @@ func TestVerifC16(t *testing.T) {
 		}
 		run.EvalN("r:"+c.key(), 3)
 	}
+	// long identifiers (a 70-100 byte Call-ID, 40-90 byte tags, long host names) in families
+	// whose members differ in exactly one component - the last characters of the Call-ID, of a
+	// tag, of a user, of a host, a port: every member is another dialog
+	nfam := ev.Pick(300, 6000)
+	for i := 0; i < nfam && bad <= 30; i++ {
+		long := func(lo, hi int) string { return g.Alnum(lo, hi) }
+		base := c16Case{callID: long(70, 100) + "@" + long(10, 30) + ".example.net",
+			a: c16Party{tag: long(40, 90), uri: "sip:" + long(10, 40) + "@" + long(10, 40) + ".ims.mnc001.mcc262.3gppnetwork.org:5060"},
+			b: c16Party{tag: long(40, 90), uri: "sip:" + long(10, 40) + "@" + long(10, 40) + ".ims.mnc002.mcc262.3gppnetwork.org:5062"}}
+		bump := func(s string) string { // another last character
+			c := s[len(s)-1]
+			if c == 'x' {
+				return s[:len(s)-1] + "y"
+			}
+			return s[:len(s)-1] + "x"
+		}
+		fam := []c16Case{base, base, base, base, base, base, base, base}
+		fam[1].callID = bump(base.callID)
+		fam[2].a.tag = bump(base.a.tag)
+		fam[3].b.tag = bump(base.b.tag)
+		fam[4].a.uri = strings.Replace(base.a.uri, "@", "x@", 1)
+		fam[5].b.uri = strings.Replace(base.b.uri, "@", "x@", 1)
+		fam[6].a.uri = strings.Replace(base.a.uri, ":5060", ":5061", 1)
+		fam[7].b.uri = strings.Replace(base.b.uri, ".ims.mnc002", "x.ims.mnc002", 1)
+		for k, c := range fam {
+			for _, v := range []int{g.R.Intn(nvariants), g.R.Intn(nvariants)} {
+				if !observe(c, c16Render(c, v, g.R)) {
+					bad++
+					break
+				}
+			}
+			run.EvalN(fmt.Sprintf("family|member%d|%d", k, i), 2)
+		}
+	}
+	run.Observe("families_of_long_identifiers", nfam)
 	run.Observe("messages_decoded", messages)
 	run.Observe("distinct_identifiers", len(mon.keyOfID))
 	run.Observe("alphabet", map[string]any{"call_ids": callIDs, "tags": tags, "uris": uris})
